@@ -93,9 +93,11 @@ class TapeRecorder(object):
                 else:
                     duration = time() - start_time
 
-                    self._add_post_operation_metadata(recording, metadata, post_operation_metadata_extractor, duration)
-
                     try:
+                        # The recording may have been discarded (closed) by another thread meanwhile, in which case adding
+                        # the metadata fails and nothing is saved
+                        self._add_post_operation_metadata(recording, metadata, post_operation_metadata_extractor,
+                                                          duration)
                         self.tape_cassette.save_recording(recording)
                         _logger.info(u'Finished recording of category {} with id {}, recording duration {:.2f}'.format(
                             category, recording.id, duration))
